@@ -63,6 +63,8 @@ class TranslatorC(Translator):
                }
 
     NATIVE_INT_MAX_SIZE = 64
+    # Size of a bn_t (BN_BIT_SIZE in bn.h)
+    BN_BIT_SIZE = 256
 
     def __init__(self, loc_db=None, **kwargs):
         """Instance a C translator
@@ -433,7 +435,7 @@ class TranslatorC(Translator):
                     TOK_INF_EQUAL_UNSIGNED,
             ]:
                 arg0, arg1 = expr.args
-                if expr.size <= self.NATIVE_INT_MAX_SIZE:
+                if arg0.size <= self.NATIVE_INT_MAX_SIZE:
                     size = get_c_common_next_pow2(arg0.size)
                     op = TOK_CMP_TO_NATIVE_C[expr.op]
                     if expr.op in [TOK_INF_SIGNED, TOK_INF_EQUAL_SIGNED]:
@@ -457,12 +459,17 @@ class TranslatorC(Translator):
                     )
                 else:
                     op = TOK_CMP_TO_BIGNUM_C[expr.op]
+                    if (expr.op in [TOK_INF_SIGNED, TOK_INF_EQUAL_SIGNED] and
+                        arg0.size < self.BN_BIT_SIZE):
+                        # Signed comparisons work on the whole big number
+                        arg0 = arg0.signExtend(self.BN_BIT_SIZE)
+                        arg1 = arg1.signExtend(self.BN_BIT_SIZE)
+                    # The result is a native 0/1
                     out = "bignum_is_%s(%s, %s)" % (
                         op,
-                        arg0,
-                        arg1
+                        self.from_expr(arg0),
+                        self.from_expr(arg1)
                     )
-                    out = "bignum_mask(%s, %d)"% (out, expr.size)
                 return out
 
 
